@@ -134,6 +134,17 @@ CLAIMS = {
         note=TB + "Sem defines what a source query returns; multi-threaded races inside the scc catalog maps are not driven (statements run one at a time per engine); persistent catalogs do not exist at this commit.",
         technique="Lean 4 proof (statement-step laws, claim protocol exactly-once by induction over schedules, snapshot-scan invariant) + history-level and collection-level differential correspondence",
         design="5/C14"),
+    "C15": dict(
+        text=("Partial. Props/C15.lean about Core/Tokens.lean (model of Tokenizer::next_token / tokenize): every successful next_token consumes at least one character (nextToken_progress), hence the tokenizer "
+              "terminates on every input with fuel = input length (tokenize_total), emits at most one token per character (tokenize_length_le) and fails only on the unhandled character at the head of the rest "
+              "(nextToken_error_is_head); the parenthesis depth the recursive-descent parser must follow is unbounded in the input length (paren_depth_unbounded: 2k+1 characters ask for depth k - the logical half "
+              "of the stack-overflow finding); a failing statement leaves catalog and settings unchanged in the statement-step specification (from C14). Tie: 4000 random / SQL-shaped / Unicode strings through the "
+              "real Tokenizer vs the model (tokens, error character, depth); ~4500 statements (valid, run-time failing, token-level mutations, random Unicode, trailing multi-byte garbage, verify_optimized_plan mode), each "
+              "followed in the same session by a dump of 7 settings, the catalog listing and a table digest: outcome must be rows or error and an error must leave the dump unchanged; nesting bombs of 13 shapes."),
+        note=TB + "why partial: native stack consumption, allocator failure and panics inside third-party crates are run-time facts no Lean model exhibits - the theorem bounds nothing there, the harness observes the crash; "
+             "parser, binder and planner are not modelled beyond the tokenizer (their totality is only sampled by the statement stream); statement text reaches the engine as &str, so invalid UTF-8 cannot be submitted.",
+        technique="Lean 4 proof (tokenizer progress/termination/bounds by induction; unbounded nesting depth) + tokenizer correspondence + crash/hang/state-preservation oracle on fuzzed statements in child processes",
+        design="5/C15", partial=True),
 }
 
 NOT_YET = {
